@@ -10,7 +10,7 @@ Proof. destruct z as [s|]; cbn; [intros ->; reflexivity|reflexivity]. Qed.
 
 Theorem dlg_payload_roundtrip t : dlg_constructed t -> dlg_from_payload (dlg_to_payload t) = Ok t.
 Proof.
-  intros [Hiss Haud Hsub Hcmd [Hpol Hpi] Hn Hnbf Hexp].
+  intros [Hiss Haud Hsub Hcmd [Hpol Hpi] Hn Hmeta Hnbf Hexp].
   destruct t as [iss aud sub cmd pol nonce meta nbf exp]. cbn [dk_iss dk_aud dk_sub dk_cmd dk_pol dk_nonce dk_meta dk_nbf dk_exp] in *.
   unfold dlg_from_payload.
   assert (Hb : bind_struct dlg_schema (dlg_to_payload {| dk_iss := iss; dk_aud := aud; dk_sub := sub; dk_cmd := cmd; dk_pol := pol;
@@ -18,9 +18,10 @@ Proof.
   { unfold dlg_to_payload. cbn [dk_iss dk_aud dk_sub dk_cmd dk_pol dk_nonce dk_meta dk_nbf dk_exp].
     generalize (did_print iss) (did_print aud) (pol_to_ipld pol). intros si sa p.
     destruct sub as [sub|]; cbn [option_map opt_entry app]; [generalize (did_print sub); intros ss|];
+    unfold no_null_values in Hmeta;
     destruct meta as [|m0 meta], nbf as [nbf|], exp as [exp|]; cbn [option_map opt_entry app]; cbn in Hnbf, Hexp;
       try (apply in53_int64 in Hnbf); try (apply in53_int64 in Hexp);
-      cbv -[in_int64]; rewrite ?Hnbf, ?Hexp; reflexivity. }
+      cbv -[in_int64]; cbv in Hmeta; rewrite ?Hnbf, ?Hexp, ?Hmeta; reflexivity. }
   rewrite Hb. cbn [negb]. clear Hb.
   set (P := dlg_to_payload _).
   assert (E_iss : fstr "iss" P = did_print iss) by (subst P; destruct sub, meta, nbf, exp; reflexivity).
@@ -45,7 +46,7 @@ Qed.
 
 Theorem inv_payload_roundtrip t : inv_constructed t -> inv_from_payload (inv_to_payload t) = Ok t.
 Proof.
-  intros [Hiss Hsub Haud Hcmd [Hargs Hnd] Hn Hexp Hiat].
+  intros [Hiss Hsub Haud Hcmd [Hargs Hnd] Hn [Hmeta Hargsn] Hexp Hiat].
   destruct t as [iss sub aud cmd args prf meta nonce exp iat cause].
   cbn [ik_iss ik_sub ik_aud ik_cmd ik_args ik_prf ik_meta ik_nonce ik_exp ik_iat ik_cause] in *.
   unfold inv_from_payload.
@@ -55,9 +56,10 @@ Proof.
   { unfold inv_to_payload. cbn [ik_iss ik_sub ik_aud ik_cmd ik_args ik_prf ik_meta ik_nonce ik_exp ik_iat ik_cause].
     generalize (did_print iss) (did_print sub). intros si ss. revert Hl. generalize (map Link prf). intros lp Hl.
     destruct aud as [aud|]; cbn [option_map opt_entry app]; [generalize (did_print aud); intros sa|];
+    unfold no_null_values in Hmeta, Hargsn;
     destruct meta as [|m0 meta], exp as [exp|], iat as [iat|], cause as [cause|]; cbn [option_map opt_entry app]; cbn in Hexp, Hiat;
       try (apply in53_int64 in Hexp); try (apply in53_int64 in Hiat);
-      cbv -[in_int64]; cbv in Hl; rewrite ?Hexp, ?Hiat, ?Hl; reflexivity. }
+      cbv -[in_int64]; cbv in Hl; cbv in Hmeta; cbv in Hargsn; rewrite ?Hexp, ?Hiat, ?Hl, ?Hargsn, ?Hmeta; reflexivity. }
   rewrite Hb. cbn [negb]. clear Hb.
   set (P := inv_to_payload _).
   assert (E_iss : fstr "iss" P = did_print iss) by (subst P; destruct aud, meta, exp, iat, cause; reflexivity).
